@@ -1,9 +1,12 @@
 pub mod c01;
 pub mod c02;
+pub mod c03;
 pub mod c04;
+pub mod c07;
+pub mod c09;
 
 use crate::runner::Check;
 
 pub fn all() -> Vec<&'static dyn Check> {
-    vec![&c01::C01, &c02::C02, &c04::C04]
+    vec![&c01::C01, &c02::C02, &c03::C03, &c04::C04, &c07::C07, &c09::C09]
 }
